@@ -101,6 +101,20 @@ def gen_cases(ctx):
              eps=2.0 ** -20, seed=rng.next(), zero_at=[start + 1, 0])
     c.update(tree)
     tf.append(c)
+  # magnitude changes along the history (powers of two): a collapsing history makes the preconditioned
+  # gradient tiny while the graft step is not (zero-norm guard of the multiplier), a growing one the
+  # reverse (added after a seeded change was missed)
+  for graft, so, start, exps in (("sgd", "shampoo", 0, [7, 7, 7, -27, -27]),
+                                 ("rmsprop", "shampoo", 1, [7, 7, -27, -27]),
+                                 ("sgd", "sketchy", 0, [7, 7, 7, -27, -30]),
+                                 ("rmsprop", "sketchy", 2, [-20, -20, 10, 10]),
+                                 ("sgd", "shampoo", 1, [-27, -27, 7, 7])):
+    tree = TF_TREES[n % len(TF_TREES)]
+    n += 1
+    c = dict(kind="tf", graft=graft, so=so, start=start, steps=len(exps), beta=0.5,
+             eps=2.0 ** -20, seed=rng.next(), scale_exps=exps)
+    c.update(tree)
+    tf.append(c)
   return cases + tf
 
 
@@ -110,7 +124,9 @@ def qv(xs):
 
 
 def zv(xs):
-  return "(zv [" + "; ".join(zlit(int(x)) for x in xs) + "]%Z)"
+  if all(float(x) == int(x) and abs(x) < 2 ** 62 for x in xs):
+    return "(zv [" + "; ".join(zlit(int(x)) for x in xs) + "]%Z)"
+  return qv(xs)            # gradients scaled by a power of two: exact dyadic rationals
 
 
 def terms_for(r):
